@@ -61,6 +61,12 @@ _arith('uint', 'u64')
 ARITH_TWINS = [k for k in KANI if k.startswith('arith_')]
 
 PROPS = {
+    'C06': dict(
+        units=['value_coll', 'value_arith'],
+        not_covered=['list / map literals (MkList, MkDict arms and compile-time construction): unit interp', 'size(): unit builtins',
+                     'list membership is stated over PartialEq for CelValue, whose own structural impl is outside this unit'],
+        assumptions=['HashMap<String,_> key model (axiom), Vec<CelValue>.len() <= isize::MAX (allocation limit)'],
+    ),
     'C07': dict(
         units=['macros'],
         not_covered=['the per-element evaluation itself (spec_eval is the abstract interpreter; its own contracts are unit interp)',
